@@ -48,6 +48,11 @@ _s = {}
 def schema():
     if not _s:
         s = build_schema(SDL)
+        # Python names for some fields (out_name, an extension of graphql-core): coerced results are keyed by them
+        for tname, fname in (('One', 's'), ('One', 'a'), ('A', 'f'), ('A', 'l'), ('B', 'x')):
+            f = s.type_map[tname].fields.get(fname)
+            if f is not None:
+                f.out_name = fname + '_out'
         _s['schema'] = s
         _s['types'] = [(ts, s.query_type.fields[f'f{i}'].args['a'].type, f'f{i}') for i, ts in enumerate(TYPE_STRS)]
     return _s['schema'], _s['types']
@@ -62,9 +67,10 @@ def conforms(x, t):
     if is_list_type(t):
         return isinstance(x, list) and all(conforms(i, t.of_type) for i in x)
     if is_input_object_type(t):
-        if not isinstance(x, dict) or any(k not in t.fields for k in x):
+        keys = {(f.out_name or k): f for k, f in t.fields.items()}
+        if not isinstance(x, dict) or any(k not in keys for k in x):
             return False
-        for k, f in t.fields.items():
+        for k, f in keys.items():
             if k in x:
                 if not conforms(x[k], f.type):
                     return False
